@@ -221,18 +221,19 @@ def level_bracket(plot, cn, p, l):
 def big_slice_specs(draw):
     """3D inputs whose plotfile-format slice exceeds the 1 MB file-splitting threshold at level 0."""
     cn = draw(st.integers(0, 2))
-    nb0 = [8, 8, 8]
+    nb0 = [16, 16, 16]
     nb0[cn] = 1
-    nf = draw(st.sampled_from([33, 40, 62, 65, 95]))
+    # 64 x 64 x nf x 8 bytes per level-0 slice: 1.08 MB (2 files) ... 6.5 MB (7 files)
+    nf = [33, 62, 95, 125, 160, 200, 40, 65][draw(st.integers(0, 2 ** 16)) % 8]
     nlev = draw(st.integers(1, 2))
     rects = []
     if nlev == 2:
-        lo = [draw(st.integers(0, 12)), draw(st.integers(0, 12)), draw(st.integers(0, 12))]
+        lo = [draw(st.integers(0, 28)), draw(st.integers(0, 28)), draw(st.integers(0, 28))]
         lo[cn] = draw(st.integers(0, 1))
-        sz = [draw(st.integers(1, 3)) for _ in range(3)]
+        sz = [draw(st.integers(1, 4)) for _ in range(3)]
         sz[cn] = 1
         rects = [[[lo, sz]]]
-    mesh = dict(ndims=3, bf=8, m=draw(st.integers(1, 3)), nb0=nb0, nlev=nlev, rects=rects, no_unit=False,
+    mesh = dict(ndims=3, bf=4, m=draw(st.sampled_from([4, 6, 8, 5])), nb0=nb0, nlev=nlev, rects=rects, no_unit=False,
                 chop_seed=draw(st.one_of(st.just(0), st.integers(1, 2 ** 16))), order_seed=draw(st.integers(0, 99)),
                 layout=draw(plotgen.layouts()))
     geom = draw(plotgen.geom_specs(3))
